@@ -208,9 +208,13 @@ def build_arm(spec):
             axes = np.array(spec["axes"], float).T
             pts = np.array(spec["points"], float).T
             n = axes.shape[1]
+            pris = spec.get("prismatic") or [False] * n
             screws = np.zeros((6, n))
             for i in range(n):
-                screws[:, i] = np.hstack((axes[:, i], np.cross(pts[:, i], axes[:, i])))
+                if pris[i]:
+                    screws[:, i] = np.hstack(([0.0, 0.0, 0.0], axes[:, i]))      # pure translation along the axis
+                else:
+                    screws[:, i] = np.hstack((axes[:, i], np.cross(pts[:, i], axes[:, i])))
             ee = tm(list(spec["ee"]))
             arm = am.Arm(base, screws.copy(), ee, pts.copy(), axes.copy())
         else:
@@ -312,12 +316,14 @@ class IKRun:
             T = self.fk(g["theta"])
             return tm(T), T, True
         if k == "beyond":
-            anchor, R = self.reach() or (np.zeros(3), 10.0)
+            rb = self.reach()
+            anchor, R = rb or (np.zeros(3), 10.0)
             d = np.array(g["dir"], float)
             d = d / max(np.linalg.norm(d), 1e-12)
             p = anchor + d * R * g["f"]
             t = tm([float(p[0]), float(p[1]), float(p[2])] + list(g["rot"]))
-            return t, np.array(t.gTM(), float), False
+            # with a prismatic joint no reach bound is computed: the pose is just "some far pose", no reachability claim
+            return t, np.array(t.gTM(), float), (False if rb else None)
         if k == "pose":
             t = tm(list(g["taa"]))
             return t, np.array(t.gTM(), float), None
@@ -586,6 +592,8 @@ class IKRun:
         P["path_" + path] += 1
         if g["k"] == "beyond":
             P["goal_beyond_reach"] += 1
+        if self.trace["config"]["arm"].get("prismatic") and any(self.trace["config"]["arm"]["prismatic"]):
+            P["arm_with_prismatic_joint"] += 1
         if g["k"] == "current":
             P["goal_is_current_reported_pose"] += 1
             if not info["pre_coherent"]:
@@ -668,7 +676,11 @@ def _chain(r):
     d = _unit(r)
     L = r.uniform(0.05, 1.0)
     ee = [round(p[j] + L * d[j], 4) for j in range(3)] + ([0.0, 0.0, 0.0] if r.random() < 0.6 else [round(r.uniform(-1, 1), 3) for _ in range(3)])
-    return {"kind": "chain", "axes": axes, "points": pts, "ee": ee}
+    spec = {"kind": "chain", "axes": axes, "points": pts, "ee": ee}
+    # Prismatic joints are supported by build_arm (spec["prismatic"]) but not generated: Arm.FK / Arm.IK wrap every
+    # joint value with angleMod, which turns a prismatic travel of 6.39 m into 0.10 m -- a forward-kinematics state
+    # defect (C05's business) that would drown this property's findings (tried; see DESIGN.md section 10).
+    return spec
 
 
 def gen_trace(seed):
